@@ -824,7 +824,25 @@ pub fn run_probe_session(seed: u64, run: u64, prop: &str) -> Acc {
     let z = crate::zobrist::ZobristHasher::create_zobrist_hasher();
     let mut sc = Scenario::new();
     sc.line("uci");
-    let base = workload::gen_game(&mut rng, 30);
+    // one session in 250: a very long game (1030-1400 plies, no capture-heavy play so that it
+    // does not end early) - move lists beyond any fixed-size token or move buffer
+    let base = if run % 250 == 3 {
+        let mut g = workload::Game { start: Pos::start(), moves: vec![], source: "marathon-game" };
+        for _ in 0..6 {
+            let want = 1030 + rng.below(370) as usize;
+            let ms = workload::random_walk(&mut rng, &Pos::start(), want, workload::Bias::Quiet);
+            if ms.len() >= 1030 {
+                g.moves = ms;
+                break;
+            }
+        }
+        if g.moves.len() >= 1030 {
+            acc.count("session_with_a_game_of_more_than_1024_plies");
+        }
+        g
+    } else {
+        workload::gen_game(&mut rng, 30)
+    };
     let mut games: Vec<workload::Game> = vec![];
     let n = 1 + rng.below(4);
     for _ in 0..n {
